@@ -97,6 +97,9 @@ class RegexVM:
         self.stack_limit = stack_limit
         self.poll_interval = poll_interval
         self.step_limit = step_limit
+        # Steps left until the next poll, shared by all matcher runs of this
+        # VM: a search made of many short attempts is polled as well
+        self._steps_to_poll = poll_interval
 
         self.ignorecase = "i" in flags
         self.multiline = "m" in flags
@@ -159,7 +162,9 @@ class RegexVM:
         while True:
             # Check limits periodically
             step_count += 1
-            if step_count % self.poll_interval == 0:
+            self._steps_to_poll -= 1
+            if self._steps_to_poll <= 0:
+                self._steps_to_poll = self.poll_interval
                 if self.poll_callback and self.poll_callback():
                     raise RegexTimeoutError("Regex execution timed out")
 
@@ -651,7 +656,9 @@ class RegexVM:
 
         while True:
             step_count += 1
-            if step_count % self.poll_interval == 0:
+            self._steps_to_poll -= 1
+            if self._steps_to_poll <= 0:
+                self._steps_to_poll = self.poll_interval
                 if self.poll_callback and self.poll_callback():
                     raise RegexTimeoutError("Regex execution timed out")
 
@@ -768,7 +775,9 @@ class RegexVM:
 
         while True:
             step_count += 1
-            if step_count % self.poll_interval == 0:
+            self._steps_to_poll -= 1
+            if self._steps_to_poll <= 0:
+                self._steps_to_poll = self.poll_interval
                 if self.poll_callback and self.poll_callback():
                     raise RegexTimeoutError("Regex execution timed out")
 
